@@ -107,9 +107,42 @@ def audit(modules, extra_names=()):
     os.makedirs(os.path.dirname(tmp), exist_ok=True)
     with open(tmp, "w") as f:
         f.write(src)
-    try:
-        rc, out = run(["lake", "env", "lean", tmp], cwd=LEAN)
-    finally:
+    # the report is a function of the Lean sources (model, lemmas, properties, generated tables) and of the list of names: it is
+    # memoised under .lake/ keyed by the hash of exactly those texts (a changed source or regenerated table gives a new key)
+    import hashlib
+    h = hashlib.sha256(src.encode())
+    for root, _, fs in sorted(os.walk(os.path.join(LEAN, "NSG"))):
+        for fn in sorted(fs):
+            if fn.endswith(".lean"):
+                h.update(fn.encode() + b"\0" + open(os.path.join(root, fn), "rb").read() + b"\0")
+    for fn in ("NSG.lean", "lakefile.toml", "lake-manifest.json"):
+        if os.path.exists(os.path.join(LEAN, fn)):
+            h.update(open(os.path.join(LEAN, fn), "rb").read())
+    cache = os.path.join(LEAN, ".lake", "audit_cache", h.hexdigest() + ".txt")
+    rc = out = None
+    if os.path.exists(cache):
+        try:
+            out = open(cache).read()
+            rc = 0
+        except OSError:
+            rc = out = None
+    if out is None:
+        try:
+            rc, out = run(["lake", "env", "lean", tmp], cwd=LEAN)
+        finally:
+            try:
+                os.remove(tmp)
+            except OSError:
+                pass
+        if rc == 0:
+            try:
+                os.makedirs(os.path.dirname(cache), exist_ok=True)
+                with open(cache + f".{os.getpid()}", "w") as f:
+                    f.write(out)
+                os.replace(cache + f".{os.getpid()}", cache)
+            except OSError:
+                pass
+    else:
         try:
             os.remove(tmp)
         except OSError:
